@@ -1012,3 +1012,72 @@ impl DebugSession {
         )
     }
 }
+
+/// Verification hook (feature `verif`): `HitCondition::parse(input)` encoded as
+/// (tag, value) -- 0 Exact, 1 GreaterOrEqual, 2 Greater, 3 Less, 4 LessOrEqual, 5 Invalid --
+/// and `matches(hits)` of the parsed condition.
+#[cfg(feature = "verif")]
+pub fn verif_hit_condition(input: &str, hits: u64) -> (u8, u64, bool) {
+    let parsed = HitCondition::parse(input);
+    let matches = parsed.matches(hits);
+    let (tag, value) = match &parsed {
+        HitCondition::Exact(n) => (0, *n),
+        HitCondition::GreaterOrEqual(n) => (1, *n),
+        HitCondition::Greater(n) => (2, *n),
+        HitCondition::Less(n) => (3, *n),
+        HitCondition::LessOrEqual(n) => (4, *n),
+        HitCondition::Invalid(_) => (5, 0),
+    };
+    (tag, value, matches)
+}
+
+/// Verification hook (feature `verif`): the read-only request `verifState` answers with the
+/// debugger's `breakpoints_snapshot()` as (number, kind 0 = Relocated / 1 = Global, address),
+/// the adapter's records, the debuggee pid and the program counter of the thread in focus.
+#[cfg(feature = "verif")]
+impl DebugSession {
+    pub(super) fn verif_state(&mut self, req: &DapRequest) -> anyhow::Result<()> {
+        fn addr_json(a: &debugger::address::Address) -> Value {
+            match a {
+                debugger::address::Address::Relocated(r) => json!([0, r.as_u64()]),
+                debugger::address::Address::Global(g) => json!([1, u64::from(*g)]),
+            }
+        }
+        fn rec_json(kind: &str, r: &BreakpointRecord) -> Value {
+            json!({
+                "kind": kind,
+                "id": r.id,
+                "addresses": r.addresses.iter().map(addr_json).collect::<Vec<_>>(),
+                "hit_count": r.hit_count,
+            })
+        }
+        let mut records = Vec::new();
+        for (src, recs) in &self.breakpoints_by_source {
+            records.extend(recs.iter().map(|r| rec_json(src, r)));
+        }
+        records.extend(self.function_breakpoints.iter().map(|r| rec_json("function", r)));
+        records.extend(self.instruction_breakpoints.iter().map(|r| rec_json("instruction", r)));
+        let body = match self.debugger.as_ref() {
+            None => json!({ "debugger": false, "records": records }),
+            Some(dbg) => {
+                let snapshot: Vec<Value> = dbg
+                    .breakpoints_snapshot()
+                    .iter()
+                    .map(|v| {
+                        let a = addr_json(&v.addr);
+                        json!([v.number, a[0], a[1]])
+                    })
+                    .collect();
+                json!({
+                    "debugger": true,
+                    "snapshot": snapshot,
+                    "records": records,
+                    "pid": dbg.process().pid().as_raw(),
+                    "pc": dbg.ecx().location().pc.as_u64(),
+                    "data": self.data_breakpoints.values().map(|r| json!([r.target.data_id(), r.id])).collect::<Vec<_>>(),
+                })
+            }
+        };
+        self.send_success_body(req, body)
+    }
+}
